@@ -118,6 +118,9 @@ func (w *websocket) message() {
 				} else {
 					w.socket.Emit("error", err)
 				}
+				// nothing more is read from a connection whose message failed: it
+				// is being closed, which may take a while (a batch in flight)
+				return
 			} else {
 				w.onMessage(read)
 			}
@@ -129,6 +132,9 @@ func (w *websocket) message() {
 				} else {
 					w.socket.Emit("error", err)
 				}
+				// nothing more is read from a connection whose message failed: it
+				// is being closed, which may take a while (a batch in flight)
+				return
 			} else {
 				w.onMessage(read)
 			}
